@@ -16,7 +16,7 @@ delay changes: whatever `register_local_inputs` hands to the remote endpoints is
 queue content, frame after frame.
 -/
 import GgrsModel.Proofs.Queue
-import GgrsModel.Proofs.Glue
+import GgrsModel.Proofs.DelayStep
 
 namespace Ggrs
 
@@ -231,5 +231,41 @@ theorem C11_owner_sends_queue (x y : P2P × TLState) (h0 : ∃ gh, SessInv x.1 g
   obtain ⟨gh, hy, hgy⟩ := GlueInv_run x y h0 hrun
   obtain ⟨gh2, gh', sA, sB, hinv', _, hsp, hpre, hlA, hs, hlB⟩ := rollbackTick_glue y.1 s' gh y.2 [] reqs' now hy hgy hadv
   exact ⟨gh, gh2, gh', sA, sB, hy, hinv', hsp, hpre, hlA, hs, hlB⟩
+
+end Ggrs
+
+namespace Ggrs
+
+/-- **C11, delay changes at run time, session level (rollback mode, no disconnected players).** Start
+from a state with the session and glue invariants (a freshly built session has them:
+`SessInv_init`, `GlueInv_init`) and run ANY interleaving of remote-input arrivals, `advance_frame`
+calls AND `set_input_delay` calls for local players, with any delays. Then the invariants still
+hold — every queue's ring implements the stream the specification prescribes (`QSpec.setDelay`: an
+increase repeats the last value over the frames it opens, after a decrease submissions are dropped
+until the stream has caught up), a local player's status names the newest frame its queue holds,
+the outgoing queue holds queue contents only (the fills of every increase included) — and one more
+call hands its remote endpoints only consecutive, complete frames carrying exactly the local
+players' queue inputs. Owner and remotes see the same stream, whatever the delay history. -/
+theorem C11_delay_changes (x y : P2P × TLState) (h0 : HInv x) (hrun : DStar x y) (now : Nat) (s' : P2P)
+    (reqs' : List Request) (hadv : y.1.advanceRollbackFrame now [] = .ok (s', reqs')) :
+    ∃ (gh gh2 gh' : Ghost) (sA sB : P2P), SessInv y.1 gh y.2 [] ∧ GlueInv y.1 gh ∧ SessInv s' gh' y.2 reqs' ∧
+      GlueInv s' gh' ∧ gh'.specs = gh2.specs ∧ (∀ p, PrefixOf (gh.specs p).vals (gh2.specs p).vals) ∧
+      sA.lastSentOutgoingInputFrame = y.1.lastSentOutgoingInputFrame ∧ Sends gh2 now sA sB ∧
+      s'.lastSentOutgoingInputFrame = sB.lastSentOutgoingInputFrame := by
+  obtain ⟨⟨gh, hy, hgy⟩, _⟩ := HInv_run x y h0 hrun
+  obtain ⟨gh2, gh', sA, sB, hinv', hg', hsp, hpre, hlA, hs, hlB⟩ := rollbackTick_glue y.1 s' gh y.2 [] reqs' now hy hgy hadv
+  exact ⟨gh, gh2, gh', sA, sB, hy, hgy, hinv', hg', hsp, hpre, hlA, hs, hlB⟩
+
+end Ggrs
+
+namespace Ggrs
+
+/-- The hypotheses of `C11_delay_changes` are met by a freshly built session. -/
+example (s : P2P) (R : Nat → List (Input × InputStatus)) (n : Nat)
+    (hq : s.sync.queues = List.replicate n InputQueue.new) (hst : s.localConnectStatus = List.replicate n {})
+    (hc : s.sync.currentFrame = 0) (ho : s.outgoingLocalInputs = []) (hn : s.nextSpectatorFrame = 0) :
+    HInv (s, ⟨0, R⟩) :=
+  ⟨⟨_, SessInv_init s R n hq hst hc, GlueInv_init s _ n (fun _ => rfl) ho hst (by rw [hq]; simp)⟩,
+   by show 0 ≤ s.nextSpectatorFrame; rw [hn]; exact Int.le_refl _⟩
 
 end Ggrs
